@@ -42,10 +42,14 @@ type logWriter struct {
 	faults []fault
 	calls  int
 	closed bool
+	strict bool // an io.WriteCloser that honours Close, like *os.File: once closed it refuses every Write
 }
 
 func (w *logWriter) Write(p []byte) (int, error) {
 	w.calls++
+	if w.strict && w.closed {
+		return 0, errors.New("write on a closed writer")
+	}
 	f := fault{}
 	if len(w.faults) > 0 {
 		f = w.faults[0]
